@@ -4,6 +4,7 @@
   (`sum` starts from 0, and `0 + x` is exact), one division by `float64(3)`.
 -/
 import Gedcom.Model.Similarity
+import Gedcom.Model.SimilarityRaw
 import Gedcom.Model.Float64
 namespace Gedcom.F64
 open Gedcom
@@ -36,5 +37,67 @@ def jaroWinklerF (a b : Str) (boost : Dbl) (prefixSize : Nat) : Dbl :=
 def stringSimilarityF (a b : Str) (boost : Dbl) (prefixSize : Nat) : Dbl :=
   let p := Sim.comparedNames a b
   jaroWinklerF p.1 p.2 boost prefixSize
+
+/-! ### `(*IndividualNode).Similarity` (individual_node.go) on the float64 values -/
+
+/-- an option value `float64(n)/float64(d)` (also what a decimal literal of the defaults is) -/
+def ofRat (q : Rat) : Dbl := rnd q.num.toNat q.den
+
+/-- the running maximum over the matrix of names, starting from 0.0 -/
+def nameSimilarityF (ns ms : List Str) (boost : Dbl) (pre : Nat) : Dbl :=
+  ns.foldl (fun acc n =>
+    ms.foldl (fun acc m =>
+      let s := stringSimilarityF n m boost pre
+      if lt acc s then s else acc) acc) ⟨0, 0⟩
+
+def half : Dbl := ⟨1, 1⟩
+
+/-- `(*DateNode).Similarity`: 0.5 when a node is missing -/
+def dateNodeSimilarityF (l r : Option Sim.DateR) (maxYears : Dbl) : Dbl :=
+  match l, r with
+  | some l, some r =>
+    dateSimilarity (rangeYears (years l.start) (years l.stop)) (rangeYears (years r.start) (years r.stop)) maxYears
+  | _, _ => half
+
+/-- `nameSimilarity*ratio + (birth+death)/2.0*(1.0-ratio)` -/
+def mixF (name birth death ratio : Dbl) : Dbl :=
+  add (mul name ratio) (mul (div (add birth death) (ofNat 2)) (absdiff (ofNat 1) ratio))
+
+def indiSimilarityF (x y : Sim.Indi) (o : Sim.SimOpts) : Dbl :=
+  let my := ofRat o.maxYears
+  mixF (nameSimilarityF x.names y.names (ofRat o.jaroBoostThreshold) o.jaroPrefixSize)
+    (dateNodeSimilarityF x.birth y.birth my) (dateNodeSimilarityF x.death y.death my)
+    (ofRat o.nameToDateRatio)
+
+/-- the dates the binary64 model of `Years()` covers: nothing, or a calendar date of the years
+    1..9999 (outside, `Date.Time()` is the zero time and the driver answers `skip`) -/
+def dateInDomain (d : Date) : Bool :=
+  (d.year == 0 && d.month == 0 && d.day == 0) ||
+  (1 ≤ d.year && d.year ≤ 9999 && d.month ≤ 12 && (d.month != 0 || d.day == 0) &&
+    (d.day == 0 || (d.day : Int) ≤ dim (isLeap d.year) d.month))
+
+def rangeInDomain : Option Sim.DateR → Bool
+  | none => true
+  | some r => dateInDomain r.start && dateInDomain r.stop
+
+/-- `DateNodes.Minimum()` with the float64 comparison `date.StartDate().Years() < min.StartDate().Years()`
+    (the exact model has to set ties such as `Dec 1880` / `16 Dec 1880` aside; the last bit decides
+    here as it does in Go) -/
+def minimumRangeF : List Gedcom.DateRange → Option Gedcom.DateRange
+  | [] => none
+  | d :: ds => some (ds.foldl (fun m x =>
+      if lt (years x.start.toDate) (years m.start.toDate) then x else m) d)
+
+def estimatedDateF (primary secondary : List Str) : Option Sim.DateR :=
+  let ds := if primary.isEmpty then secondary else primary
+  (minimumRangeF (ds.map parseDateRange)).map Sim.ofParsed
+
+def rawToIndiF (r : Sim.RawIndi) : Sim.Indi :=
+  ⟨r.id, r.names, estimatedDateF r.births r.baptisms, estimatedDateF r.deaths r.burials⟩
+
+/-- every DATE value of the raw record lies in the domain of the binary64 `Years()` model -/
+def rawInDomain (r : Sim.RawIndi) : Bool :=
+  (r.births ++ r.baptisms ++ r.deaths ++ r.burials).all fun s =>
+    rangeInDomain (some (Sim.ofParsed (parseDateRange s)))
 
 end Gedcom.F64
